@@ -141,3 +141,14 @@ func init() {
 		}
 	}
 }
+
+// EVM keeper: key-type check and chain id are pure queries (no ledger effect); message application stays under the
+// foreign-keeper rule.
+func init() {
+	theory["EVMKeeper.SupportedKey"] = func(x *Exec, f *Frame, st *State, c *CallInfo) Val {
+		return x.freshTerm("supported_key", SBool)
+	}
+	theory["EVMKeeper.ChainID"] = func(x *Exec, f *Frame, st *State, c *CallInfo) Val {
+		return x.freshTerm("evm_chain_id", SInt)
+	}
+}
